@@ -195,7 +195,9 @@ def _result_case(draw, tier):
                 np_obs=draw(st.sampled_from([False, False, True])))
 
 
-_NAMES = ["ber", "Alpha", "ser", "zeta", "count", "B2"]
+# (some names are parts of the name of the runner's own 'num_skipped_reps')
+_NAMES = ["ber", "Alpha", "ser", "zeta", "count", "B2", "reps", "num", "r",
+          "skipped"]
 
 
 @st.composite
